@@ -15,22 +15,22 @@ TRUSTED_BASE = [
 # modules whose theorems are the obligations of the property (audited); `ties` are built too (a failure = tie broken)
 PROPS = {
     "C01": dict(modules=["Cvss.Props.C01", "Cvss.Props.C01v2", "Cvss.Props.C01v3", "Cvss.Props.C01v4"], ties=["Cvss.Model.SrcTie"], streams=["parse"]),
-    "C02": dict(modules=["Cvss.Props.C02v2", "Cvss.Props.C02v3", "Cvss.Props.C02v4"], ties=["Cvss.Model.SrcTie"], streams=["parse", "obj"]),
+    "C02": dict(modules=["Cvss.Props.C02", "Cvss.Props.C02v2", "Cvss.Props.C02v3", "Cvss.Props.C02v4"], ties=["Cvss.Model.SrcTie"], streams=["parse", "obj"]),
     "C03": dict(modules=[], ties=[], streams=["score"]),
     "C04": dict(modules=[], ties=[], streams=["score"]),
     "C05": dict(modules=[], ties=[], streams=["score"]),
     "C06": dict(modules=["Cvss.Props.C06", "Cvss.Props.C06v2", "Cvss.Props.C06v3", "Cvss.Props.C06v4"], ties=["Cvss.Model.SrcTie"], streams=["parse"]),
     "C07": dict(modules=["Cvss.Props.C07", "Cvss.Props.C07v4"], ties=[], streams=["obj"]),
-    "C08": dict(modules=["Cvss.Props.C08v2", "Cvss.Props.C08v3", "Cvss.Props.C08v4"], ties=["Cvss.Model.SrcTie"], streams=["parse", "obj"]),
-    "C09": dict(modules=["Cvss.Props.C09", "Cvss.Props.C09v4"], ties=[], streams=["obj", "parse"]),
+    "C08": dict(modules=["Cvss.Props.C08", "Cvss.Props.C08v2", "Cvss.Props.C08v3", "Cvss.Props.C08v4"], ties=["Cvss.Model.SrcTie"], streams=["parse", "obj"]),
+    "C09": dict(modules=["Cvss.Props.C09", "Cvss.Props.C09v4", "Cvss.Props.C09b"], ties=[], streams=["obj", "parse"]),
     "C10": dict(modules=[], ties=[], streams=["score"]),
     "C11": dict(modules=[], ties=[], streams=["score"]),
     "C12": dict(modules=[], ties=[], streams=["score"]),
-    "C13": dict(modules=["Cvss.Props.C13", "Cvss.Props.C13v2", "Cvss.Props.C13v3", "Cvss.Props.C13v4"], ties=["Cvss.Model.SrcTie"], streams=["parse"]),
+    "C13": dict(modules=["Cvss.Props.C13", "Cvss.Props.C13b", "Cvss.Props.C13v2", "Cvss.Props.C13v3", "Cvss.Props.C13v4"], ties=["Cvss.Model.SrcTie"], streams=["parse"]),
     "C14": dict(modules=["Cvss.Props.C14"], ties=["Cvss.Model.SrcTie"], streams=["race", "obj"]),
     "C15": dict(modules=["Cvss.Props.C15"], ties=[], streams=["rating"]),
     "C16": dict(modules=["Cvss.Props.C16"], ties=[], streams=["obj"]),
-    "C17": dict(modules=[], ties=[], streams=["obj", "alloc"]),
+    "C17": dict(modules=["Cvss.Props.C17"], ties=[], streams=["obj", "alloc"]),
     "C18": dict(modules=["Cvss.Props.C18", "Cvss.Props.C18v2", "Cvss.Props.C18v3", "Cvss.Props.C18v4", "Cvss.Findings.C18v2"], ties=["Cvss.Model.SrcTie"], streams=["defect", "obj", "parse"]),
 }
 
@@ -51,8 +51,24 @@ _PARSER_NOTE = ("trusted: Lean kernel; the hand-written parser model Model/Parse
                 "Get/Set/tables; the Spec transcription (Spec/Metrics, Spec/Grammar, Spec/Errors)")
 LEVEL_TEXT = {
     pid: _lt("exploration", _PENDING, _NOTE, "differential testing of the implementation against an executable Lean Spec and model (proofs pending)")
-    for pid in ["C02", "C08", "C17"]
+    for pid in []
 }
+LEVEL_TEXT["C02"] = _lt("proof",
+    "Theorems C02.v20…v40 / reachable20…40: for EVERY object reachable through the API (Reachable <-> wf, C09) the regenerated Vector() is accepted by the version's parser "
+    "model and the parsed object IS the original (value equality = ==, hence equal on every Get). Structural: Vector shape theorem (Proofs/Vec*.lean, from the generated "
+    "append chain), parser completeness on the canonical spelling, get/set laws, extensionality. All 1.4e8 / 5.7e11 / 2.7e17 objects at once.",
+    _PARSER_NOTE + "; translator for Vector/lenVec (obj stream compares Vector(), lenVec, round trip on every object incl. raw bytes)", _TECH)
+LEVEL_TEXT["C08"] = _lt("proof",
+    "Theorems C08.v20…v40: for every accepted string and its grammar witness w, Vector() of the parsed object = Spec canonical w (spec order, X removed; v2 groups dropped iff all ND); "
+    "fixed*: a canonical string comes back unchanged; twice*: the re-parse returns the same object, so parse-serialise is idempotent.",
+    _PARSER_NOTE + "; Spec canonical form (Spec/Grammar.lean)", _TECH)
+LEVEL_TEXT["C17"] = _lt("proof",
+    "PARTIAL. Proved (Props/C17.lean): for every well-formed object of every version len(Vector()) = lenVec() (exact length formula for ALL byte states; per optional metric the "
+    "mask test <-> value != X and the increment = len(prefix)+len(value), incl. U:Clear/Green/Amber/Red), i.e. the pre-sized buffer is never outgrown: in the allocation cost model "
+    "(make = 1, append beyond capacity >= 1) Vector() costs exactly 1. NOT provable in a model: escape analysis, sync.Pool steady state, that nothing else allocates - measured: "
+    "the alloc stream counts real mallocs (runtime.MemStats) for Vector/ParseVector(after valid and after rejected inputs)/Get/Set(legal, illegal)/scores/Rating/Nomenclature on "
+    "every optional metric alone, every value, all together, random objects.",
+    "trusted: Go allocator/escape analysis behaviour (measured, not modelled); translator for Vector/lenVec", _TECH + "; runtime part: allocation measurements")
 LEVEL_TEXT["C01"] = _lt("proof",
     "Theorems C01.v20/v30/v31/v40: for EVERY byte string (induction, no length bound) the parser model accepts iff the string is in the generative grammar of "
     "Spec/Grammar.lean (right header, only the version's abbreviations, each at most once, order rule, all mandatory metrics, legal values, nothing else), and "
@@ -104,5 +120,7 @@ LEVEL_TEXT["C18"] = _lt("proof",
     "illegal value for Get/Set. v2.0: the full statement is FALSE on the unchanged code (known finding F3, negation proved in Findings/C18v2.lean and reproduced on the real "
     "code); v20_partial proves every case except an insertion after a complete environmental group, and v2_errors_afterEnv characterises the finding exactly.",
     _PARSER_NOTE, _TECH)
-for pid in ["C03", "C04", "C05", "C10", "C11", "C12"]:
+for pid in ["C10", "C11", "C12"]:
+    LEVEL_TEXT[pid] = _lt("exploration", _PENDING, _NOTE, "differential testing of the implementation against an executable Lean Spec and model (proofs pending)")
+for pid in ["C03", "C04", "C05"]:
     NOT_CLAIMED[pid] = "check under construction (Spec and theorems for this property are not merged yet); see DESIGN.md section 7"
